@@ -276,6 +276,16 @@ func (e *env) run(cc ccase) {
 		return
 	}
 	ch, poison := e.changed()
+	// a later frame in which nothing was drawn leaves the terminal as it is
+	// (what the window put there stays there, nothing else is touched)
+	if val2, stack2, p2 := harness.Recover(func() { e.sess.Vx.Render() }); p2 {
+		w.ViolationStack("panic:"+harness.PanicKey(val2, stack2), "panic in the frame after the drawing call: "+val2, cc, val2, "no panic", stack2)
+		return
+	}
+	if ch2, _ := e.changed(); fmt.Sprint(ch2) != fmt.Sprint(ch) {
+		w.Violation("later-frame-changed-the-screen:"+cc.Op.Kind, fmt.Sprintf("a second Render without any drawing call changed the terminal: before %v, after %v", brief(ch), brief(ch2)), cc, brief(ch2), brief(ch))
+		return
+	}
 	nontrivial := !clip.empty()
 	if nontrivial {
 		w.Case(string(cj))
